@@ -252,4 +252,19 @@ REG = {
     note="Dawson/Erfi are referred to a long-double quadrature of the defining integral (trusted harness code), Inv_Erf to libm erf. Ties of Round are excluded from the decimal replay. "
          "Erfi is checked for |x| < 26 (beyond, the value overflows).",
     technique="integer/rational TLA+ specification of Round, the comparison helpers and the VSH coefficient tables (TLC exhaustive with a completeness law), replay of exported cases, trace validation of harmonic identities for every (l,m) and of recorded relations"),
+ "C11": dict(
+    engine="spec/NelderMead.tla, MC_NelderMead.tla, Trace_Min.tla (2 cfgs), Rat.tla; harness/c11.cpp",
+    design_ref="DESIGN.md §4.11",
+    text="NelderMead.tla transcribes Minimization::minimize in exact rational arithmetic (ranking with the code's tie rules, fractional-range test, amotry with factors -1, 2, 1/2 and "
+         "its acceptance test, shrink, psum maintenance, nfunc accounting, final swap); on integer quadratics from integer simplices every quantity is dyadic, so the model follows the "
+         "code's decisions exactly. TLC runs it on 60 objectives x starting simplices x two tolerances and proves: the vertex values are the objective at the vertices, the best value "
+         "never increases, psum is the column sum, nfunc counts the evaluations, the best vertex ends in slot 0 and is not worse than any starting vertex. Every model run is replayed "
+         "through the real minimize: the sequence of evaluated points, the returned vertex and nfunc agree exactly (1296/1296; a disagreement would be reported as model drift). Recorded "
+         "executions: Find_Minimum/Find_Maximum on quadratic, quartic-flat, cosh, Lennard-Jones-like, sqrt(1+t^2) and multimodal objectives from any pair of starting abscissae (not worse "
+         "than the start, Find_Maximum(-f) identical bits, within the distance implied by the tolerance and the flatness of f), and minimize (three overloads, in child processes) on "
+         "convex bowls of dimension 1..6 and multimodal objectives (returns, not worse than the start, fmin/y/current_simplex consistent with the objective bit for bit, distance).",
+    note="The distance clause for the simplex method is violated by the unchanged code in 1-15% of random bowls (termination on the fractional spread of the vertex values): listed as a "
+         "known finding, so a change that only worsens simplex convergence shows up as model drift, not as a violation. Shrink steps are not exercised by the exact model. Brent/bracketing "
+         "are not modelled step by step.",
+    technique="exact-rational TLA+ transcription of Nelder-Mead (TLC exhaustive on a lattice of quadratics and simplices), per-run replay with exact comparison of evaluation sequences, trace validation of recorded minimisations"),
 }
